@@ -1,6 +1,6 @@
 """Recorded steps -> observable event lines (the text form of Spec.Trace.Ev), and oracle judgement."""
 
-FAULT_PEER = {"garbage", "badcrc", "trunc"}
+FAULT_PEER = {"garbage", "badcrc", "trunc", "badtext", "badenum", "short"}
 
 
 def _reorder(evs):
